@@ -77,6 +77,17 @@ def main(tier, seed):
       agg = explore.explore('vt.checks.c11', 'run_exec', params, b, seed=seed, pool=pool, split_levels=1 if b <= 2 else 2)
       agg.violations = [v for v in agg.violations if v['clause'].startswith('C12.')]
       rep.add_explore(name, agg, b, params=params)
+    # the hop "waiting for the balancer to open": driven at the balancer itself (engine B, vt/lbharness.py), because in the stacks the
+    # public builders make the dispatcher holds a call back until the balancer is open
+    from .. import bfs
+    for kind in ('heap', 'aperture'):
+      lbp = {'kind': kind, 'n': 2, 'ops': ['D', 'C', 'Gate', 'TO'], 'gate': True, 'notifier': True, 'max_out': 3, 'prefixes': ['C12.']}
+      if kind == 'aperture':
+        lbp['min_size'] = 1
+      res = bfs.run_bfs('vt.lbharness', 'expand', lbp, 6 if tier == 'quick' else 8, pool, seed=seed, stop_on_violation=False)
+      res.violations = [v for v in res.violations if v['clause'].startswith('C12.')]
+      rep.add_bfs('%s balancer: requests waiting for it to open, deadlines firing meanwhile' % kind, res, 6 if tier == 'quick' else 8,
+                  params=lbp, replay_base={'params': lbp})
   finally:
     pool.close()
     pool.join()
@@ -93,5 +104,10 @@ def _unused_main(tier, seed):
 
 
 def replay(path):
+  import json
+  rp = json.load(open(path)).get('replay', {})
+  if 'history' in rp:
+    from . import c03
+    return c03.replay(path)
   from . import c01
   return c01.replay(path)
